@@ -41,10 +41,10 @@ func init() {
 			"a per-case wall-clock watchdog (120 s, generous: cases take milliseconds) ends the worker; the driver reports the last logged case. Blocking builtins are only reached under a context deadline",
 			"host builtins registered by the harness itself (package verif, which panics on demand) are excluded from the sweep",
 		},
-		Cases:       func(tier string) int { return pick(tier, 12000, 400000) },
-		Run:         c03Run,
-		Init:        c03Init,
-		MinDistinct: func(tier string) int { return pick(tier, 900, 2500) },
+		Cases:         func(tier string) int { return pick(tier, 12000, 400000) },
+		Run:           c03Run,
+		Init:          c03Init,
+		MinDistinct:   func(tier string) int { return pick(tier, 900, 2500) },
 		WorkerTimeout: func(tier string) time.Duration { return time.Duration(pick(tier, 25, 240)) * time.Minute },
 	})
 }
@@ -178,7 +178,7 @@ func c03Stressor(r *fw.RNG) (string, string) {
 	case 9:
 		return "self-map-print", "(set 'm (sorted-map))\n(assoc! m \"self\" m)\n(list (to-string 1) (format-string \"{}\" m) (debug-print m) (equal? m m) m)"
 	case 10:
-		return "self-vector-print", "(set 'v (vector 1))\n(append! v v)\n(list (format-string \"{}\" v) (equal? v v) (length v) v)"
+		return "self-vector-print", "(set 'v (vector 1))\n(append! v v v v)\n(list (format-string \"{}\" v) (equal? v v) (length v) v)"
 	case 11:
 		return "self-map-json", "(set 'm (sorted-map))\n(assoc! m \"self\" m)\n(json:dump-string m)"
 	case 12:
@@ -186,9 +186,15 @@ func c03Stressor(r *fw.RNG) (string, string) {
 	case 13:
 		return "cross-cycle-equal", "(set 'a (sorted-map)) (set 'b (sorted-map))\n(assoc! a \"x\" b) (assoc! b \"x\" a)\n(list (equal? a b) (format-string \"{} {}\" a b))"
 	case 14:
-		return "cyclic-macro-expansion", "(defmacro cyc () (let ([v (vector 1)]) (append! v v) v))\n(cyc)"
+		k := r.Range(1, 4) // the expansion holds itself k times
+		return fmt.Sprintf("cyclic-macro-expansion-width%d", k), "(defmacro cyc () (let ([v (vector 1)]) (append! v" + strings.Repeat(" v", k) + ") v))\n(cyc)"
 	case 15:
-		return "cyclic-macro-expansion-list", "(defmacro cyc2 () (let ([m (sorted-map)]) (assoc! m \"k\" m) (list 'quote m)))\n(cyc2)"
+		k := r.Range(1, 3)
+		keys := ""
+		for i := 0; i < k; i++ {
+			keys += fmt.Sprintf(" (assoc! m \"k%d\" m)", i)
+		}
+		return fmt.Sprintf("cyclic-macro-expansion-map-width%d", k), "(defmacro cyc2 () (let ([m (sorted-map)])" + keys + " (list 'quote (list m m))))\n(cyc2)"
 	case 16:
 		return "huge-expr-index", fmt.Sprintf("(#^(list %%%d) 1)", n*1000)
 	case 17:
